@@ -22,6 +22,42 @@ def plan(tier):
     return 1200 if tier == "quick" else 30000
 
 
+# second workload: the images the repository's own tests master (harness/suite.py); without a model
+# two extents may coincide only if they are the same extent (names of one content, the boot
+# catalog read as a file, the enhanced descriptor's view of the PVD's structures)
+SUITE_TIERS = ('quick', 'thorough')
+
+
+def suite_oracle(data):
+    dec = common.decode_all(data)
+    ecma = dec['ecma']
+    if ecma.pvd is None:
+        return [{'key': 'decode:no-pvd', 'detail': str(ecma.problems[:2])}]
+    vio = []
+    declared = ecma.space_size * 2048
+    if len(data) < declared:
+        vio.append({'key': 'length:short', 'detail': 'image %d bytes, declared %d' % (len(data), declared)})
+    elif len(data) > declared and not dec['hybrid'].present:
+        vio.append({'key': 'length:long', 'detail': 'image %d bytes, declared %d' % (len(data), declared)})
+    items = []
+    for kind, ident, s, e in common.full_extent_map(dec):
+        if e <= s or kind == 'enh-dir' or kind.startswith('enh-ptable') or kind == 'enh-data' or kind in ('mbr', 'gpt-hdr', 'gpt-array', 'apm'):
+            continue
+        items.append((s, e, kind, ident))
+        if e > declared and not kind.startswith('udf-avdp'):
+            vio.append({'key': 'oob:%s' % kind, 'detail': '%s %s occupies %d..%d beyond the declared %d bytes' % (kind, ident, s, e, declared)})
+    items.sort()
+    active = []
+    for it in items:
+        active = [a for a in active if a[1] > it[0]]
+        for a in active:
+            shared = (a[0], a[1]) == (it[0], it[1]) and all(k.endswith('-data') or k == 'boot-catalog' for k in (a[2], it[2]))
+            if not shared:
+                vio.append({'key': 'overlap:%s x %s' % tuple(sorted((a[2], it[2]))), 'detail': '%s %s (%d..%d) overlaps %s %s (%d..%d)' % (a[2], a[3], a[0], a[1], it[2], it[3], it[0], it[1])})
+        active.append(it)
+    return vio
+
+
 def check_image(tracer, model, counters):
     vio = []
     data = tracer if tracer.virtual else tracer.getvalue()
@@ -167,6 +203,9 @@ def check(cfg, ops, seed, counters=None, reopen_at=None, ops2=None):
 
 
 def run_case(i, seed, tier):
+    if i >= plan(tier):
+        from harness import suite
+        return suite.run_slot(PROPERTY, i - plan(tier), suite_oracle)
     counters = {}
     g = Gen(seed * 1000003 + i)
     cfg = g.cfg(index=i + seed * 19)
@@ -225,6 +264,9 @@ def run_case(i, seed, tier):
 
 
 def replay(doc):
+    if doc.get('suite_image'):
+        from harness import suite
+        return suite.replay(doc, suite_oracle)
     cfg, ops, seed = common.doc_cfg_ops(doc)
     ops2 = driver.ops_from_json(doc.get('ops2') or [])
     return check(cfg, ops, seed, ops2=ops2 or None)
